@@ -192,11 +192,11 @@ Proof.
     rewrite <- C. apply Forall_forall. intros x. apply children_child.
 Qed.
 Lemma list_pure_nil l s k : list_pure l s k = Some [] ->
-  (exists v c, lookup s k = Some (File v c)) \/ comps_below k s = [].
+  (exists v c, lookup s k = Some (File v c)) \/ (lookup s k = Some Dir /\ comps_below k s = []).
 Proof.
   unfold list_pure. destruct (lookup s k) as [[v c|]|].
   - intros _; left; eauto.
-  - intros H; injection H; intros C. right. exact (children_nil _ _ C).
+  - intros H; injection H; intros C. right. split; [reflexivity | exact (children_nil _ _ C)].
   - destruct (children s k); discriminate.
 Qed.
 Lemma do_list_spec e k s r s1 : do_list e k s = (r, s1) ->
@@ -222,10 +222,11 @@ Proof.
 Qed.
 
 Lemma do_store_spec e k n s b s1 : do_store e k n s = (b, s1) ->
-  (b = false /\ sto s1 = sto s) \/ (b = true /\ sto s1 = put k n (sto s)).
+  (b = false /\ sto s1 = sto s /\ lg s1 = Ev KStore k false :: lg s) \/
+  (b = true /\ sto s1 = put k n (sto s) /\ is_dir (sto s) k = false /\ lg s1 = Ev KStore k true :: lg s).
 Proof.
   unfold do_store. destruct (faulty e s); [intros H; injection H; intros <- <-; cbn; auto|].
-  destruct (is_dir (sto s) k); intros H; injection H; intros <- <-; cbn; auto.
+  destruct (is_dir (sto s) k) eqn:D; intros H; injection H; intros <- <-; cbn; auto 6.
 Qed.
 
 (** * Shapes of keys *)
@@ -246,24 +247,61 @@ Qed.
 Lemma cmp_ge_spec x g : cmp_holds CmpGe x g = (g <=? x).
 Proof. reflexivity. Qed.
 
+(** nothing is left below k *)
+Definition gone_under (cur : store) (k : key) : Prop := forall k', under k k' = true -> lookup cur k' = None.
+Lemma gone_under_remove x cur k : gone_under cur k -> gone_under (remove x cur) k.
+Proof. intros G k' U. rewrite lookup_remove. destruct (covers x k'); [reflexivity | exact (G k' U)]. Qed.
+
+Lemma site_folder_shape sk : site_folder sk -> site_folderb sk = true.
+Proof.
+  intros [ik [[c1 [-> H1]] [c2 [-> H2]]]]. unfold site_folderb.
+  replace ((spec_certs ++ c_sl :: c1) ++ c_sl :: c2) with ((spec_certs ++ [c_sl]) ++ (c1 ++ c_sl :: c2)).
+  2:{ repeat rewrite <- app_assoc. cbn. reflexivity. }
+  rewrite strip_prefix_app, split_on_length.
+  replace (c1 ++ c_sl :: c2) with (c1 ++ [c_sl] ++ c2) by reflexivity.
+  repeat rewrite nsep_app. rewrite (nsep_nomem _ H1), (nsep_nomem _ H2). reflexivity.
+Qed.
+
 (** * The invariant: the current storage is the initial one minus justified keys *)
 Section Safety.
   Variables (o : opts) (now : Z) (s0 : store).
 
-  Definition Inv (cur : store) : Prop :=
-    forall k, file cur k = file s0 k \/ (file cur k = None /\ justified o now s0 k = true).
+  (** how a key may differ from the initial storage: not at all; gone and justified; or it was a
+      directory node -- an emptied site folder -- and nothing is left below it *)
+  Inductive kstate (cur : store) (k : key) : Prop :=
+  | KSame : lookup cur k = lookup s0 k -> kstate cur k
+  | KJust : lookup cur k = None -> justified o now s0 k = true -> kstate cur k
+  | KFolder : lookup cur k = None -> lookup s0 k = Some Dir -> site_folderb k = true ->
+              do_certs o = true -> gone_under cur k -> kstate cur k.
+  Definition Inv (cur : store) : Prop := forall k, kstate cur k.
 
   Lemma Inv_remove x cur : Inv cur ->
-    (forall k, covers x k = true -> file cur k = None \/ justified o now s0 k = true) ->
+    (forall k, covers x k = true ->
+       lookup cur k = None \/ justified o now s0 k = true \/
+       (lookup s0 k = Some Dir /\ site_folderb k = true /\ do_certs o = true /\ gone_under (remove x cur) k)) ->
     Inv (remove x cur).
   Proof.
-    intros HI H k. rewrite file_remove. destruct (covers x k) eqn:C; [|exact (HI k)].
-    destruct (H k C) as [N|J]; [|right; auto].
-    destruct (HI k) as [E|[_ J]]; [left; congruence | right; auto].
+    intros HI H k. pose proof (lookup_remove x cur k) as L. destruct (covers x k) eqn:C.
+    - destruct (H k C) as [N|[J|(D & Sf & Ho & G)]].
+      + destruct (HI k) as [E|N' J|N' D Sf Ho G].
+        * apply KSame. congruence.
+        * apply KJust; assumption.
+        * apply KFolder; try assumption. apply gone_under_remove; exact G.
+      + apply KJust; assumption.
+      + apply KFolder; assumption.
+    - destruct (HI k) as [E|N' J|N' D Sf Ho G].
+      + apply KSame. congruence.
+      + apply KJust; [congruence | assumption].
+      + apply KFolder; try assumption; [congruence | apply gone_under_remove; exact G].
   Qed.
 
   Lemma Inv_some cur k v c : Inv cur -> file cur k = Some (v, c) -> file s0 k = Some (v, c).
-  Proof. intros HI E. destruct (HI k) as [E'|[E' _]]; congruence. Qed.
+  Proof.
+    intros HI E. unfold file in *. destruct (HI k) as [E'|N _|N _ _ _ _].
+    - rewrite <- E'. exact E.
+    - rewrite N in E. discriminate.
+    - rewrite N in E. discriminate.
+  Qed.
 
   Lemma file_in s k x : file s k = Some x -> In k (map fst s).
   Proof.
@@ -305,7 +343,10 @@ Section Safety.
     Variable e : env.
 
     Lemma delete_keeps_inv k s b s1 : do_delete e k s = (b, s1) -> Inv (sto s) ->
-      (forall k', covers k k' = true -> file (sto s) k' = None \/ justified o now s0 k' = true) ->
+      (forall k', covers k k' = true ->
+         lookup (sto s) k' = None \/ justified o now s0 k' = true \/
+         (lookup s0 k' = Some Dir /\ site_folderb k' = true /\ do_certs o = true /\
+          gone_under (remove k (sto s)) k')) ->
       Inv (sto s1).
     Proof.
       intros D HI H. destruct (do_delete_spec _ _ _ _ _ D) as [->| ->]; [exact HI|].
@@ -324,7 +365,7 @@ Section Safety.
       destruct (stale_staple now c) eqn:St; [|apply IH; [assumption | rewrite E1; exact HI]].
       destruct (do_delete e a s1) as [b s2] eqn:D. apply IH; [assumption|].
       apply (delete_keeps_inv _ _ _ _ D); [rewrite E1; exact HI|].
-      intros k' Ck. right.
+      intros k' Ck. right; left.
       assert (Hf : file (sto s) a = Some (v, c)) by (unfold file; rewrite (Hok v c eq_refl); reflexivity).
       apply (staple_justifies a v c Ho Ha (Inv_some _ _ _ _ HI Hf)); [|exact Ck].
       unfold stale_staple in St. unfold spec_stale. destruct (as_staple c); [|reflexivity].
@@ -350,7 +391,7 @@ Section Safety.
       induction sufs as [|x r IH]; intros HF s HI; cbn [delete_related]; [exact HI|].
       inversion HF as [|? ? Hx HF']; subst.
       destruct (do_delete e (base ++ x) s) as [b s1] eqn:D. apply IH; [assumption|].
-      apply (delete_keeps_inv _ _ _ _ D HI). intros k' Ck. right. exact (Hx k' Ck).
+      apply (delete_keeps_inv _ _ _ _ D HI). intros k' Ck. right; left. exact (Hx k' Ck).
     Qed.
 
     Lemma assets_loop_inv assets : do_certs o = true ->
@@ -379,7 +420,7 @@ Section Safety.
       apply delete_related_inv.
       - repeat constructor; intros k; apply CJ; cbn; auto.
       - apply (delete_keeps_inv _ _ _ _ D); [rewrite E1; exact HI|].
-        intros k' Ck. right. apply (CJ a); cbn; auto.
+        intros k' Ck. right; left. apply (CJ a); cbn; auto.
     Qed.
 
     Lemma sites_loop_inv sites : do_certs o = true ->
@@ -407,14 +448,16 @@ Section Safety.
       destruct (do_delete e sk s4) as [ok s5] eqn:D.
       assert (HI5 : Inv (sto s5)).
       { apply (delete_keeps_inv _ _ _ _ D); [rewrite E4, E3; exact HI2|].
-        intros k' Ck. left. rewrite E4. unfold file.
-        destruct (list_pure_nil _ _ _ (Hl2 [] eq_refl)) as [(v & c & Hfile)|Hnil].
+        intros k' Ck. rewrite E4.
+        destruct (list_pure_nil _ _ _ (Hl2 [] eq_refl)) as [(v & c & Hfile)|[Hd Hnil]].
         - exfalso. rewrite <- E3 in Hfile. exact (Hdir eq_refl v c Hfile).
-        - rewrite <- E3 in Hnil. unfold covers in Ck. apply orb_true_iff in Ck. destruct Ck as [Ck|Ck].
-          + apply seqb_eq in Ck; subst k'.
-            destruct (lookup (sto s3) sk) as [[v c|]|] eqn:Lk; try reflexivity.
-            exfalso. exact (Hdir eq_refl v c eq_refl).
-          + rewrite (comps_below_nil _ _ Hnil _ Ck). reflexivity. }
+        - rewrite <- E3 in Hnil, Hd. unfold covers in Ck. apply orb_true_iff in Ck. destruct Ck as [Ck|Ck].
+          + apply seqb_eq in Ck; subst k'. right; right.
+            assert (Hd0 : lookup s0 sk = Some Dir).
+            { destruct (HI2 sk) as [E'|N _|N _ _ _ _]; rewrite <- E3 in *; congruence. }
+            split; [exact Hd0|]. split; [apply site_folder_shape; exists ik; auto|]. split; [exact Ho|].
+            intros k'' U. rewrite lookup_remove. unfold covers. rewrite U, orb_true_r. reflexivity.
+          + left. exact (comps_below_nil _ _ Hnil _ Ck). }
       destruct ok; [apply IH; assumption | exact HI5].
     Qed.
 
@@ -447,57 +490,6 @@ Section Safety.
     Qed.
   End Loops.
 End Safety.
-
-(** * The whole cleaning *)
-(** the storage afterwards: every terminal key is unchanged, or gone and justified, or it is
-    last_clean.json holding the freshly written record *)
-Definition Post (o : opts) (now : Z) (s0 fin : store) : Prop :=
-  forall k, (file fin k = file s0 k \/ (file fin k = None /\ justified o now s0 k = true)) \/
-            (k = spec_last_clean /\ lookup fin k = Some (written now o)).
-
-Lemma interval_check_sto e o now s r s1 : interval_check e o now s = (r, s1) -> sto s1 = sto s.
-Proof.
-  unfold interval_check. destruct (0 <? interval o); [|intros H; injection H; intros <- _; reflexivity].
-  destruct (do_load e clean_storage_key s) as [res s2] eqn:L.
-  destruct (do_load_spec _ _ _ _ _ L) as (E & _).
-  destruct res as [v c| |]; try (intros H; injection H; intros <- _; exact E).
-  destruct (as_clean c) as [[ts i]|]; [|intros H; injection H; intros <- _; exact E].
-  destruct (cmp_holds clean_interval_cmp (now - ts) (interval o)); intros H; injection H; intros <- _; exact E.
-Qed.
-
-Lemma clean_locked_post e o now s0 s : Inv o now s0 (sto s) ->
-  Post o now s0 (sto (snd (clean_locked e o now s))).
-Proof.
-  intros HI. unfold clean_locked.
-  destruct (interval_check e o now s) as [ir s1] eqn:IC.
-  pose proof (interval_check_sto _ _ _ _ _ _ IC) as E1.
-  destruct ir; cbn [snd]; try (intros k; left; rewrite E1; exact (HI k)).
-  set (s2 := if do_ocsp o then delete_old_staples e now s1 else s1).
-  assert (HI2 : Inv o now s0 (sto s2)).
-  { subst s2. destruct (do_ocsp o) eqn:Ho; [|rewrite E1; exact HI].
-    apply delete_old_staples_inv; [exact Ho | rewrite E1; exact HI]. }
-  set (s3 := if do_certs o then snd (delete_expired_certs e now (grace o) s2) else s2).
-  assert (HI3 : Inv o now s0 (sto s3)).
-  { subst s3. destruct (do_certs o) eqn:Ho; [|exact HI2].
-    apply delete_expired_certs_inv; [exact Ho | exact HI2]. }
-  destruct (do_store e clean_storage_key (written now o) s3) as [ok s4] eqn:S. cbn [snd].
-  destruct (do_store_spec _ _ _ _ _ _ S) as [[_ ->]|[_ ->]]; [intros k; left; exact (HI3 k)|].
-  destruct consts_ok as (_ & _ & _ & _ & _ & _ & _ & -> & _).
-  intros k. destruct (seqb spec_last_clean k) eqn:E.
-  - right. apply seqb_eq in E; subst k. split; [reflexivity|]. rewrite lookup_put, seqb_refl. reflexivity.
-  - left. unfold file. rewrite lookup_put, E. exact (HI3 k).
-Qed.
-
-Lemma Inv_init o now s0 : Inv o now s0 s0.
-Proof. intros k; left; reflexivity. Qed.
-
-Theorem clean_post e o now s0 : Post o now s0 (sto (snd (clean e o now s0))).
-Proof.
-  unfold clean, do_lock. destruct (faulty e (St s0 [])); cbn [snd sto logged].
-  - intros k; left; left; reflexivity.
-  - destruct (clean_locked e o now _) as [r s2] eqn:C. cbn [snd]. unfold do_unlock. cbn [sto logged].
-    change s2 with (snd (r, s2)). rewrite <- C. apply clean_locked_post. cbn. apply Inv_init.
-Qed.
 
 (** * Where justified keys live *)
 Lemma has_prefix_app p x y : has_prefix p x = true -> has_prefix p (x ++ y) = true.
@@ -570,6 +562,100 @@ Lemma last_clean_not_justified o now s0 : justified o now s0 spec_last_clean = f
 Proof.
   destruct (justified o now s0 spec_last_clean) eqn:J; [|reflexivity].
   apply justified_in_namespace in J. destruct J as [J|J]; vm_compute in J; discriminate.
+Qed.
+
+(** * The whole cleaning *)
+(** the storage afterwards: every terminal key is unchanged, or gone and justified, or it is
+    last_clean.json holding the freshly written record *)
+Definition Post (o : opts) (now : Z) (s0 fin : store) : Prop :=
+  forall k, (file fin k = file s0 k \/ (file fin k = None /\ justified o now s0 k = true)) \/
+            (k = spec_last_clean /\ lookup fin k = Some (written now o)).
+
+Lemma interval_check_sto e o now s r s1 : interval_check e o now s = (r, s1) -> sto s1 = sto s.
+Proof.
+  unfold interval_check. destruct (0 <? interval o); [|intros H; injection H; intros <- _; reflexivity].
+  destruct (do_load e clean_storage_key s) as [res s2] eqn:L.
+  destruct (do_load_spec _ _ _ _ _ L) as (E & _).
+  destruct res as [v c| |]; try (intros H; injection H; intros <- _; exact E).
+  destruct (as_clean c) as [[ts i]|]; [|intros H; injection H; intros <- _; exact E].
+  destruct (cmp_holds clean_interval_cmp (now - ts) (interval o)); intros H; injection H; intros <- _; exact E.
+Qed.
+
+(** the storage afterwards, node by node: as [kstate], or last_clean.json freshly written --
+    which happens only through a successful Store call ([stored]) and never onto a directory *)
+Inductive kpost (o : opts) (now : Z) (s0 fin : store) (stored : bool) (k : key) : Prop :=
+| PState : kstate o now s0 fin k -> kpost o now s0 fin stored k
+| PWritten : k = spec_last_clean -> lookup fin k = Some (written now o) -> stored = true ->
+             lookup s0 k <> Some Dir -> kpost o now s0 fin stored k.
+Definition PostN (o : opts) (now : Z) (s0 : store) (s' : st) : Prop :=
+  forall k, kpost o now s0 (sto s') (stored_ok (lg s')) k.
+
+Lemma site_folderb_prefix k : site_folderb k = true -> has_prefix (spec_certs ++ [c_sl]) k = true.
+Proof.
+  unfold site_folderb, has_prefix. destruct (strip_prefix (spec_certs ++ [c_sl]) k); [reflexivity | discriminate].
+Qed.
+
+Lemma clean_locked_postN e o now s0 s : Inv o now s0 (sto s) ->
+  PostN o now s0 (snd (clean_locked e o now s)).
+Proof.
+  intros HI. unfold clean_locked.
+  destruct (interval_check e o now s) as [ir s1] eqn:IC.
+  pose proof (interval_check_sto _ _ _ _ _ _ IC) as E1.
+  destruct ir; cbn [snd]; try (intros k; apply PState; rewrite E1; exact (HI k)).
+  set (s2 := if do_ocsp o then delete_old_staples e now s1 else s1).
+  assert (HI2 : Inv o now s0 (sto s2)).
+  { subst s2. destruct (do_ocsp o) eqn:Ho; [|rewrite E1; exact HI].
+    apply delete_old_staples_inv; [exact Ho | rewrite E1; exact HI]. }
+  set (s3 := if do_certs o then snd (delete_expired_certs e now (grace o) s2) else s2).
+  assert (HI3 : Inv o now s0 (sto s3)).
+  { subst s3. destruct (do_certs o) eqn:Ho; [|exact HI2].
+    apply delete_expired_certs_inv; [exact Ho | exact HI2]. }
+  destruct (do_store e clean_storage_key (written now o) s3) as [ok s4] eqn:S. cbn [snd].
+  destruct (do_store_spec _ _ _ _ _ _ S) as [(_ & E4 & _)|(_ & E4 & Hnd & L4)];
+    [intros k; apply PState; rewrite E4; exact (HI3 k)|].
+  destruct consts_ok as (_ & _ & _ & _ & _ & _ & _ & Ek & _). rewrite Ek in *.
+  intros k. rewrite E4. pose proof (lookup_put spec_last_clean (written now o) (sto s3) k) as L.
+  destruct (seqb spec_last_clean k) eqn:E.
+  - apply seqb_eq in E; subst k. apply PWritten; [reflexivity | exact L | rewrite L4; reflexivity |].
+    intros D0. destruct (HI3 spec_last_clean) as [E'|N J|N D Sf Ho G].
+    + unfold is_dir in Hnd. rewrite E', D0 in Hnd. discriminate.
+    + rewrite last_clean_not_justified in J. discriminate.
+    + vm_compute in Sf. discriminate.
+  - apply PState. destruct (HI3 k) as [E'|N J|N D Sf Ho G].
+    + apply KSame. congruence.
+    + apply KJust; [congruence | exact J].
+    + apply KFolder; try assumption; [congruence|].
+      intros k' U. rewrite lookup_put. destruct (seqb spec_last_clean k') eqn:E'; [|exact (G k' U)].
+      exfalso. apply seqb_eq in E'; subst k'.
+      pose proof (site_folderb_prefix _ Sf) as P. apply under_spec in U. destruct U as [r U].
+      apply has_prefix_spec in P. destruct P as [r' ->]. rewrite <- app_assoc in U.
+      assert (X : has_prefix (spec_certs ++ [c_sl]) spec_last_clean = true) by (apply has_prefix_spec; eauto).
+      vm_compute in X. discriminate.
+Qed.
+
+Lemma Inv_init o now s0 : Inv o now s0 s0.
+Proof. intros k; apply KSame; reflexivity. Qed.
+
+(** node-level statement (covers the directory nodes of the FileStorage flavour) *)
+Theorem clean_post_nodes e o now s0 : PostN o now s0 (snd (clean e o now s0)).
+Proof.
+  unfold clean, do_lock. destruct (faulty e (St s0 [])); cbn [snd].
+  - intros k; apply PState, KSame; reflexivity.
+  - destruct (clean_locked e o now _) as [r s2] eqn:C. cbn [snd].
+    match type of C with clean_locked _ _ _ ?sx = _ =>
+      pose proof (clean_locked_postN e o now s0 sx (Inv_init o now s0)) as P end.
+    rewrite C in P. cbn [snd] in P. intros k. specialize (P k). unfold do_unlock. cbn [sto lg logged].
+    unfold stored_ok in *. cbn [existsb ev_kind]. exact P.
+Qed.
+
+(** the same for terminal keys *)
+Theorem clean_post e o now s0 : Post o now s0 (sto (snd (clean e o now s0))).
+Proof.
+  intros k. destruct (clean_post_nodes e o now s0 k) as [[E|N J|N D _ _ _]|E W _ _].
+  - left; left. unfold file. rewrite E. reflexivity.
+  - left; right. split; [unfold file; rewrite N; reflexivity | exact J].
+  - left; left. unfold file. rewrite N, D. reflexivity.
+  - right. split; assumption.
 Qed.
 
 (** * Shape of the call log *)
